@@ -292,6 +292,7 @@ def run(ctx):
     shared.replay_order(ctx, '5')
     shared.eof_is_the_only_end_of_data(ctx, '6')            # empty / header-less files are recognised by UnexpectedEof on a complete-header read only
     shared.record_goes_to_the_table_it_names(ctx, '46')      # an action is validated against the table it names
+    write_length_validated(ctx, '47')                         # what the applier writes is bounded by what the validator accepted
     record_id_arithmetic(ctx, '7')                            # ids read from a file are never fed to overflow-checked / wrapping `+ 1`
 
 
@@ -338,3 +339,49 @@ def record_id_arithmetic(ctx, p):
                         found = True
         ctx.ob(p + 'b largest-id-rejected', 'K3-guard', el.path, 'enact_logs compares the id of a replayed record with u64::MAX (the record is refused: no id is left for its successor)', found, '')
     ctx.ob(p + '0 id-arithmetic-sites', 'anchor', '-', 'the functions that compute with replayed ids were found', n == 2, 'found %d' % n)
+
+
+def write_length_validated(ctx, p):
+    """The value-table applier writes `buf[0..END]` into slot `index` of the file, where END is computed from bytes of the log
+    record (the size field). The validation pass must have refused a record whose END exceeds the slot: the validator contains a
+    comparison of THE SAME expression END with the entry size of the table whose "greater" edge is an error. Decided on the
+    provenance terms of both functions (rules/symterm.py): the compared expression and the written length are equal as terms."""
+    import symterm
+    from symterm import TermBuilder, norm, strip_casts, show, walk
+    F = ctx.F
+    ap = ctx.body('table::ValueTable::enact_plan')
+    va = ctx.body('table::ValueTable::validate_plan')
+    if not ap or not va:
+        return
+    ta, tv = TermBuilder(F, ap), TermBuilder(F, va)
+    def data_dependent(t):
+        return any(isinstance(x, tuple) and x and x[0] == 'call' and re.search(r'from_le_bytes|read_slice|read_size|read_u(16|32|64)', x[1]) for x in walk(t))
+    ends = []
+    for bi, t in ap.calls():
+        if bi in ap.normal_blocks() and call_matches(t, ['file::TableFile::write_at']) and len(t['a']) > 1:
+            w = norm(ta.operand(t['a'][1], ta.pos.get(id(t))))
+            if w[0] == 'slice' and w[3] is not None:
+                ends.append((bi, strip_casts(norm(w[3]))))
+    dd = [(bi, e) for bi, e in ends if data_dependent(e)]
+    ctx.ob(p + 'b0 applier-write-anchor', 'anchor', ap.path, 'the value applier writes slices of its buffer to the file, one of them with a length taken from the record', len(ends) >= 3 and len(dd) >= 1,
+           '%s' % [(bi, show(e)[:80]) for bi, e in ends])
+    errs = core.error_exit_blocks(va)
+    guards = []
+    for bi in sorted(va.normal_blocks()):
+        t = va.term(bi)
+        if t['k'] != 'switch' or t.get('vals') != [0] or len(t['ts']) != 2:
+            continue
+        d = strip_casts(norm(tv.operand(t['a'])))
+        if d[0] == 'bin' and d[1] in ('Gt', 'Ge', 'Lt', 'Le'):
+            lhs, rhs, op = strip_casts(d[2]), strip_casts(d[3]), d[1]
+            if op in ('Lt', 'Le'):
+                lhs, rhs, op = rhs, lhs, {'Lt': 'Gt', 'Le': 'Ge'}[op]
+            # true edge (lhs > rhs) must lead to an error return only
+            tr = va.reachable_from([t['ts'][1]], removed={bi})
+            only_err = not any(r in tr for r in va.return_blocks() if r not in errs) or all(va.find_path([t['ts'][1]], [r], removed=errs, sensitive=False) is None for r in va.return_blocks())
+            guards.append((bi, op, lhs, rhs, only_err))
+    for bi, e in dd:
+        hit = [g for g in guards if g[2] == e and g[1] == 'Gt' and g[4] and any(isinstance(x, tuple) and x[:1] == ('fld',) and str(x[2]).endswith('.entry_size') for x in walk(g[3]))]
+        ctx.ob(p + 'b value-write-length-validated', 'K9-agreement', va.path,
+               'the validator refuses a record whose written length (the expression the applier uses as the end of the slice it writes) is greater than the entry size of the table',
+               bool(hit), 'applier writes buf[0..%s]; validator compares: %s' % (show(e)[:160], [('%s %s %s' % (show(g[2])[:90], g[1], show(g[3])[:60])) for g in guards][:3]), ap.loc(bi))
